@@ -171,4 +171,5 @@ func runC20(r *vf.Runner) {
 	}
 	runC20e2e(r)
 	runC20chains(r)
+	runC20drops(r)
 }
